@@ -69,8 +69,17 @@ func TestVerifC08Race(t *testing.T) {
 		}
 	}
 	defer func() {
-		for _, name := range []string{"plain", "custom", "plain2"} {
-			router.RemoveService(name)
+		// (in the background and bounded: on a tree where a pause controller is stuck the removal would wait for ever)
+		done := make(chan struct{})
+		go func() {
+			for _, name := range []string{"plain", "custom", "plain2", "held"} {
+				router.RemoveService(name)
+			}
+			close(done)
+		}()
+		select {
+		case <-done:
+		case <-time.After(3 * time.Second):
 		}
 	}()
 	handler, _ := WithErrorPageMiddleware(vPagesFS(), true, router)
@@ -113,6 +122,65 @@ func TestVerifC08Race(t *testing.T) {
 	}
 	close(start)
 	wg.Wait()
+	// Second phase: requests HELD by a pause when two stop commands arrive together (same message), round after round.
+	// Every held request must be answered 503 with the message soon after; a request still unanswered 5 s later is
+	// reported as such (status -2).
+	heldMsg := msgs["plain.test"]
+	msgs["held.test"] = heldMsg
+	hosts = append(hosts, "held.test")
+	if err := router.DeployService("held", []string{"t9:80"}, ServiceOptions{Hosts: []string{"held.test"}}, topts, time.Second, 10*time.Millisecond); err != nil {
+		t.Fatalf("verif: deploy held: %v", err)
+	}
+	rounds := 8
+	for round := 0; round < rounds; round++ {
+		if err := router.PauseService("held", 10*time.Millisecond, 60*time.Second); err != nil {
+			t.Fatalf("verif: pause: %v", err)
+		}
+		const waiters = 3000
+		done := make(chan answer, waiters)
+		for k := 0; k < waiters; k++ {
+			go func() {
+				a := answer{host: "held.test"}
+				defer func() {
+					if p := recover(); p != nil {
+						a.status, a.body = -1, "panic: "+fmt.Sprint(p)
+					}
+					done <- a
+				}()
+				req := httptest.NewRequest("GET", "http://held.test/x", nil)
+				rec := httptest.NewRecorder()
+				handler.ServeHTTP(rec, req)
+				a.status, a.body = rec.Code, rec.Body.String()
+			}()
+		}
+		time.Sleep(30 * time.Millisecond) // they are at the gate
+		var cw sync.WaitGroup
+		for k := 0; k < 2; k++ {
+			cw.Add(1)
+			go func() {
+				defer cw.Done()
+				router.StopService("held", 10*time.Millisecond, heldMsg)
+			}()
+		}
+		got := 0
+		deadline := time.After(5 * time.Second)
+	collect:
+		for got < waiters {
+			select {
+			case a := <-done:
+				seen[a]++
+				got++
+			case <-deadline:
+				break collect
+			}
+		}
+		if got < waiters {
+			seen[answer{host: "held.test", status: -2, body: fmt.Sprintf("%d of %d held requests still unanswered 5 s after the stop (round %d)", waiters-got, waiters, round)}]++
+			break // the controller is stuck: commands would hang too
+		}
+		cw.Wait()
+		router.ResumeService("held")
+	}
 	for a, n := range seen {
 		out.emit(map[string]any{"host": a.host, "status": a.status, "body": hex.EncodeToString([]byte(a.body)), "count": n,
 			"msg": hex.EncodeToString([]byte(msgs[a.host])), "custom": a.host == "custom.test", "stopped": a.host != "nobody.test"})
